@@ -32,6 +32,9 @@ THOROUGH_ROUNDS = 4
 S = odl.solvers
 
 
+VIEW_LEAVES = ('RealPart', 'ImagPart', 'FlatteningOperator', 'ComponentProjection', 'IdentityOperator', 'ComplexEmbedding')
+
+
 def comp_of(name):
     parts = name.split('/')
     if parts[0] == 'expr':
@@ -236,6 +239,46 @@ def manufactured(ctx, name, op, rng, x):
     return out
 
 
+def arithmetic(ctx, name, op, rng, x):
+    """Every arithmetic wrapper the library offers around `op` (sum, difference, vector sum, scalar and vector
+    multiples on either side, negation, composition with the identity).  The wrappers post-process op(x) - some in
+    place - so they are driven through the same protocol with every leaf, including leaves that return views of x."""
+    out = []
+    if isinstance(op, S.Functional):
+        return out
+
+    def get(tag, f):
+        try:
+            m = f()
+            if isinstance(m, Operator):
+                out.append((tag, m))
+        except Exception:
+            pass
+    ran, dom = op.range, op.domain
+    elem_ran = not util.is_field(ran)
+    if elem_ran and any(np.dtype(l.dtype).kind not in 'fciu' for _p, l in util.leaves(ran)):
+        return out      # vector arithmetic is defined for numeric ranges (boolean ranges: NumPy itself refuses)
+    get('+op', lambda: op + op)
+    get('-op', lambda: op - op)
+    get('neg', lambda: -op)
+    get('s*', lambda: 2.5 * op)
+    get('*s', lambda: op * 2.5)
+    get('/s', lambda: op / 2.5)
+    if elem_ran:
+        v = util.rand_element(ran, rng)
+        get('+v', lambda: op + v)
+        get('-v', lambda: op - v)
+        get('v*', lambda: v * op)
+    if not util.is_field(dom):
+        w = util.rand_element(dom, rng)
+        get('*w', lambda: op * w)
+        get('oI', lambda: op * odl.IdentityOperator(dom))
+    if elem_ran:
+        get('Io', lambda: odl.IdentityOperator(ran) * op)
+        get('+op+v', lambda: (op + op) + util.rand_element(ran, rng))
+    return out
+
+
 # ---- harness operators for every documented `_call` signature form -------------------------------------------------
 
 
@@ -417,6 +460,10 @@ def run(ctx):
             covered.add('%s.%s' % (type(m).__module__, type(m).__qualname__))
             protocol(ctx, name, m, rng, manufactured=tag)
             honesty(ctx, name, m, rng, manufactured=tag)
+        if x is not None and (ctx.thorough or i % 2 == ctx.seed % 2 or any(k in name for k in VIEW_LEAVES)):
+            for tag, m in arithmetic(ctx, name, op, rng, x):
+                covered.add('%s.%s' % (type(m).__module__, type(m).__qualname__))
+                protocol(ctx, name, m, rng, manufactured=tag)
     if ctx.shard == 0:
         signature_forms(ctx)
     mon.uninstall()
